@@ -58,7 +58,7 @@ def main():
         meta['valid_seed'] = (base == mut) and demo_clean.returncode == 0 and demo_mut.returncode == 1
         meta['verdicts'] = {}
         for p in props:
-            env = dict(os.environ, PYTOUGH_REPO=str(wt))
+            env = dict(os.environ, PYTOUGH_REPO=str(wt), PTV_EVIDENCE_DIR=str(wt) + '-evidence')
             t0 = time.time()
             c = subprocess.run([PY, str(VERIF / 'harness' / 'check.py'), p, '--tier', a.tier], cwd=VERIF, env=env,
                                capture_output=True, text=True, timeout=7200)
@@ -70,6 +70,7 @@ def main():
     finally:
         sh('git -C /repo worktree remove --force %s' % wt)
         shutil.rmtree(wt, ignore_errors=True)
+        shutil.rmtree(str(wt) + '-evidence', ignore_errors=True)
         # a run against a scratch tree may have regenerated lean/PyTough/Gen: restore from /repo
         for p in props:
             subprocess.run([PY, '-c', 'import sys; sys.path.insert(0, %r); import core, importlib; m = importlib.import_module("props.%s"); '
